@@ -295,13 +295,19 @@ fn scale(w: &mut Worker, rig: &Rig) {
 /// function that returns a value, returns its argument, falls off its end or returns bare after a
 /// command that produced a (truthy) output of its own.
 fn branch_follows_output(w: &mut Worker, rig: &Rig) {
-    let bodies: [(&str, &str); 6] = [
+    let bodies: [(&str, &str); 11] = [
         ("returns-true", "return true"),
         ("returns-argument", "return ${1}"),
         ("falls-off-end-after-output", "noted = set ${1}"),
         ("bare-return-after-output", "noted = set ${1}\nreturn"),
         ("falls-off-end-after-true", "noted = set true"),
         ("returns-false-after-true", "noted = set true\nreturn false"),
+        // predicates that run blocks of their own (and leave them through return, or not at all)
+        ("inner-if-returns", "if equals ${1} ${1}\nreturn ${1}\nend\nreturn false"),
+        ("inner-if-then-falls-through", "if true\nnoted = set 1\nend\nreturn ${1}"),
+        ("inner-if-else-returns", "if is_empty ${1}\nreturn false\nelse\nreturn ${1}\nend"),
+        ("inner-loop-returns", "inner_i = set 0\nwhile less_than ${inner_i} 2\ninner_i = calc ${inner_i} + 1\nif equals ${inner_i} 2\nreturn ${1}\nend\nend\nreturn false"),
+        ("calls-library-script-with-blocks", "found = array_contains ${1} ${1}\njoined = concat ${1} \"\"\nreturn ${joined}"),
     ];
     let values = ["x", "", "false", "0", "no", "a b", "true"];
     for (bname, body) in bodies {
@@ -328,6 +334,13 @@ fn branch_follows_output(w: &mut Worker, rig: &Rig) {
                     ("while", "while p ${v} z\ntaken = set yes\ngoto :out\nend\n:out"),
                     ("not", "r = not p ${v} z\nif not ${r}\ntaken = set yes\nend"),
                     ("alias", "alias al p\nr = al ${v} z\nif ${r}\ntaken = set yes\nend"),
+                    // chains that go on behind the wrapped call: exactly one branch is taken
+                    ("if-else", "if p ${v} z\ntaken = set yes\nelse\nother = set yes\nend\nlast = set reached"),
+                    ("elseif-else", "if false\nelseif p ${v} z\ntaken = set yes\nelse\nother = set yes\nend\nlast = set reached"),
+                    ("elseif-elseif", "if false\nelseif p ${v} z\ntaken = set yes\nelseif true\nother = set yes\nend\nlast = set reached"),
+                    ("second-elseif-else", "if false\nelseif false\nelseif p ${v} z\ntaken = set yes\nelse\nother = set yes\nend\nlast = set reached"),
+                    ("elseif-elseif-else", "if false\nelseif p ${v} z\ntaken = set yes\nelseif p ${v} z\nother = set second\nelse\nother = set yes\nend\nlast = set reached"),
+                    ("if-in-while-else", "n = set 0\nwhile less_than ${n} 2\nn = calc ${n} + 1\nif false\nelseif p ${v} z\ntaken = set yes\nelse\nother = set yes\nend\nend\nlast = set reached"),
                 ] {
                     if !w.take() {
                         continue;
@@ -343,7 +356,15 @@ fn branch_follows_output(w: &mut Worker, rig: &Rig) {
                         Ok(Err(e)) => w.fail(&format!("branch:run-failed:{}", name), &e, cj),
                         Ok(Ok((_, vars))) => {
                             let taken = if name == "alias" { crate::props::c06::ref_truthy(vars.get("r").map(|s| s.as_str())) } else { vars.get("taken").map(|s| s == "yes").unwrap_or(false) };
-                            if taken == expected {
+                            let chain = line.contains("last = set reached");
+                            let other = vars.get("other").map(|s| s == "yes").unwrap_or(false);
+                            if chain && (vars.get("last").map(|s| s.as_str()) != Some("reached") || other == taken || vars.get("other").map(|s| s.as_str()) == Some("second")) {
+                                w.fail(
+                                    &format!("branch:{}:{}", name, bname),
+                                    &format!("predicate body {:?} ({}) with value {:?} in a chain: taken={:?} other={:?} last={:?} (the direct call's output is {})", body, if scoped { "scoped" } else { "plain" }, v, vars.get("taken"), vars.get("other"), vars.get("last"), if expected { "truthy" } else { "falsy" }),
+                                    cj,
+                                );
+                            } else if taken == expected {
                                 w.pass(true, hash64(&("branch", name, bname, expected)));
                             } else {
                                 w.fail(
@@ -519,7 +540,7 @@ pub fn crash_sig(case: &Value, kind: &str) -> String {
     format!("{}:{}:{}", kind, case["wrapper"].as_str().unwrap_or("?"), class_of(case["value"].as_str().unwrap_or("")))
 }
 
-pub const RULE: &str = "values: every string up to the length bound over {a SP \" # \\\\ $ { } % LF CR = TAB e-acute} plus 8 special values (${v}, %{v}, \\\\${v}, ${w}, 'a b', '\"a b\"', 'a  b', x=y), held in a variable and written as ${v} in first or second argument position of a capture command invoked directly, as the condition of if / elseif / while, under not, through an alias that stores the value, through an alias that is passed the value, through a user function used as predicate, through aliases whose target is `not <predicate>` (value passed or stored), and through an alias that stores the value and whose name a second alias definition then tries to take (refused); also wrappers inside wrappers (if not, while not, not not, an alias in condition position, an alias of an alias, an elseif behind a failed elseif); every wrapping line both at the top level of the script and inside the body of a user function that was itself called with two arguments. Branch family: for six predicate bodies (returning true / its argument / false after a truthy command output, falling off the end or returning bare after a command that produced an output) x plain and <scope> x 7 values the branch taken by if / elseif / while / not / an alias is the one the direct call's output dictates. Aftermath family: behind `if / elseif / while / not <user function> ${v} z` (plain and <scope> function, at top level and inside a called function, 6 values) a probe receives ${1} ${2} ${v} and a caller variable exactly as it does behind the direct call. Scale cases: 302 (thorough 3002) arguments, the first and last a value of 5000 (thorough 100000) characters of such text, through the direct call and seven wrappers. Oracle: the arguments received through the wrapper equal those received by the direct call. A failing case is classified by whether the received arguments equal what re-serialising the values into a line and parsing/binding it again yields (the recorded defect, one signature per input class) or not (a new violation). Non-trivial: the value contains a character other than plain letters";
+pub const RULE: &str = "values: every string up to the length bound over {a SP \" # \\\\ $ { } % LF CR = TAB e-acute} plus 8 special values (${v}, %{v}, \\\\${v}, ${w}, 'a b', '\"a b\"', 'a  b', x=y), held in a variable and written as ${v} in first or second argument position of a capture command invoked directly, as the condition of if / elseif / while, under not, through an alias that stores the value, through an alias that is passed the value, through a user function used as predicate, through aliases whose target is `not <predicate>` (value passed or stored), and through an alias that stores the value and whose name a second alias definition then tries to take (refused); also wrappers inside wrappers (if not, while not, not not, an alias in condition position, an alias of an alias, an elseif behind a failed elseif); every wrapping line both at the top level of the script and inside the body of a user function that was itself called with two arguments. Branch family: for six predicate bodies (returning true / its argument / false after a truthy command output, falling off the end or returning bare after a command that produced an output) x plain and <scope> x 7 values the branch taken by if / elseif / while / not / an alias is the one the direct call's output dictates. Aftermath family: behind `if / elseif / while / not <user function> ${v} z` (plain and <scope> function, at top level and inside a called function, 6 values) a probe receives ${1} ${2} ${v} and a caller variable exactly as it does behind the direct call. Scale cases: 302 (thorough 3002) arguments, the first and last a value of 5000 (thorough 100000) characters of such text, through the direct call and seven wrappers. Oracle: the arguments received through the wrapper equal those received by the direct call. A failing case is classified by whether the received arguments equal what re-serialising the values into a line and parsing/binding it again yields (the recorded defect, one signature per input class) or not (a new violation). Non-trivial: the value contains a character other than plain letters. Branch families: 11 predicate bodies (5 of them with blocks of their own: inner if returning, falling through, if/else, a loop left by return, calls of library scripts) x 7 values x plain / scoped x 11 wrapping shapes, 6 of which go on behind the wrapped call (else, elseif, a second elseif, inside a while): exactly the branch decided by the direct call is taken, and the script reaches its last line";
 pub const ASSUMPTIONS: &[&str] = &["the capture command returns true on its first call and false afterwards (so a while loop ends)", "classification of known findings uses the real parser and binder on a transcription of the line building in utils/eval.rs"];
 pub const EXHAUSTIVE: bool = true;
 pub const WALL_CAP_S: (u64, u64) = (55, 1500);
